@@ -670,7 +670,21 @@ class Interp3(Interp2):
                 m1 = self.int_term(self.eval_clause_value(spec.decreases, nxt))
                 self.oblige(z3.And(m0 >= 0, m1 < m0), 'decreases', ast.unparse(spec.decreases), where)
             raise PathEnd()
-        # exit path
+        # exit path: all elements have been consumed, so the prefix of length _k is the whole sequence
+        if kind == 'for' and length is not None:
+            try:
+                ek = self.seq_elem_kind(iterable)
+                if isinstance(iterable, (SSeq, bytes, str)):
+                    tt = self.seq_term(iterable)
+                elif ek is not None:
+                    tt = self.any_seq_term_k(iterable, ek)
+                else:
+                    tt = None
+                if tt is not None and z3.is_expr(tt) and tt.sort().kind() == z3.Z3_SEQ_SORT:
+                    self.fact(z3.Extract(tt, z3.IntVal(0), kterm) == tt)
+                    self.fact(kterm == z3.Length(tt))
+            except (OutOfReach, Exception):
+                pass
         self.run_hints(spec, 'exit', ghost)
         self.exec_block(n.orelse)
 
